@@ -115,9 +115,14 @@ def _update_policy(
     terminated,
     learning_rate,
 ):
-    val = q_table[observation, action]
-    next_val = (1 - terminated) * q_table[next_observation, next_action]
+    # index the observation's action row first: observations of Tuple spaces
+    # are tuples, which `q_table[observation, action]` would treat as an
+    # index array on the first axis
+    val = q_table[observation][action]
+    next_val = (1 - terminated) * q_table[next_observation][next_action]
     error = td_error(reward, gamma, val, next_val)
-    q_table = q_table.at[observation, action].add(learning_rate * error)
+    q_table = q_table.at[observation].set(
+        q_table[observation].at[action].add(learning_rate * error)
+    )
 
     return q_table
